@@ -218,6 +218,21 @@ def subtraction_rule(ctx, R):
         ctx.check(any(y.kind == 'call' and y.extra is c for y in ret.walk()) or b is fb, R, b,
                   'region=accumulated-difference', 'the per-box result derives from the difference',
                   'the region returned for a box does not derive from the accumulated difference (%r)' % ret, c.ln)
+        # ... on EVERY way out of the per-box stage (P13): a region that is produced without the running region - an
+        # early `return empty` decided by some containment shortcut - is not "the box minus what the others cover"
+        if b is not fb:
+            from lib import backward_locals
+            for d_ in b.defs().get(0, []):
+                if d_[1] not in b.live_blocks():
+                    continue
+                src_ = backward_locals(b, [d_])
+                recv_l = c.args[0]['pl']['l'] if c.args and c.args[0].get('k') in ('copy', 'move') else None
+                derived = c.dest['l'] in src_ or (recv_l is not None and recv_l in src_)
+                n += 1
+                ctx.check(derived, R, b, 'every-result-derives-from-the-running-region', 'bb%d' % d_[1],
+                          'the per-box stage has a result (bb%d) that is not built from the running region (own polygon minus '
+                          'the differences so far): a shortcut decides the region of a box without subtracting' % d_[1],
+                          d_[3].get('ln', '') if d_[0] == 'assign' else d_[2].ln)
     return n
 
 
@@ -576,6 +591,9 @@ def run(ctx):
     n = C20.r4(ctx, 'R15.4', ('too_far',))
     n += C08.radius_rule(ctx, 'R15.4')
     ctx.floor('R15.4', n, 4)
+    import misclib
+    ctx.rule('R15.7', 'the library epsilon in the share denominator is the public constant EPS = 1e-5')
+    ctx.floor('R15.7', misclib.rule_library_epsilon(ctx, 'R15.7'), 1)
     import geomlib
     ctx.rule('R15.6', 'the polygon a box contributes (minuend and subtrahend) is its rectangle rotated by +angle about its '
                       'centre, and area() in the share denominator is that rectangle\'s area (exact formulas, shared with C08 / C19)')
